@@ -68,6 +68,7 @@ def shape_deep():
                     Assignment(key="D2", value="dv2"),
                 ]),
                 Assignment(key="D3", value="dv3"),
+                Section(section_id="7", key="INB", annotation="TG7", children=[Assignment(key="D9", value="dv9"), Block(key="SBB", children=[Assignment(key="DA", value="dva")])]),
                 Block(key="EMPTYB", children=[]),
                 Block(key="L2B", children=[Assignment(key="D4", value="dv4")]),
             ]),
@@ -167,7 +168,7 @@ def subst_value(v, old, new):
     if isinstance(v, str):
         if v == old:
             return new
-        if old in v and any(c in v for c in "\u2192\u2295\u29fa\u21cc\u2227\u2228@"):
+        if old and old in v and any(c in v for c in "\u2192\u2295\u29fa\u21cc\u2227\u2228@"):
             return v.replace(old, new)  # the placeholder is one operand of an expression value
         return v
     if isinstance(v, ListValue):
